@@ -81,8 +81,9 @@ From HC.Proofs Require Import ProvProofs.
    the storability test for the directives of a client request with an understood method, written without
    its hop-by-hop fields after its body was read completely, or such an entry freshened any number of times
    by 304s where neither the request nor the 304 said no-store.  Hence its status and body are those of a
-   response r to a plain GET qc (sent as it is, or with conditional fields added, in a logged origin call)
-   for which the property's list says "may be stored": must_not_store qc r = false.
+   response r to a plain GET q0 of a logged origin call for which the property's list says "may be stored":
+   must_not_store q0 r = false (conditional fields added by the cache change neither the directives nor the
+   method test: parse_cc_with_conditional, understood_with_conditional).
    (Under every interleaving of concurrent calls the same invariant holds: C16_store_invariant.) *)
 Theorem C06_history_stored : forall cfg h t0 script k wk key e,
   let obs := run_history cfg h (init_world t0 script) in
@@ -90,8 +91,8 @@ Theorem C06_history_stored : forall cfg h t0 script k wk key e,
   nth_error (worlds_before cfg h (init_world t0 script)) k = Some wk ->
   get_entry (w_store wk) key = Some e ->
   Stor (Pl Lf) e /\
-  exists r qc q0, (exists b a c rep, In (EvCall b q0 a c rep) Lf) /\ sent_for qc q0 /\
-    plain_get qc = true /\ e_status e = p_status r /\ e_body e = p_body r /\ must_not_store qc r = false.
+  exists r q0, (exists b a c rep, In (EvCall b q0 a c rep) Lf) /\
+    plain_get q0 = true /\ e_status e = p_status r /\ e_body e = p_body r /\ must_not_store q0 r = false.
 Proof.
   intros cfg h t0 script k wk key e obs Lf Hw He.
   assert (HI : InvS (Gl Lf) (Pl Lf) (w_store wk)).
@@ -99,9 +100,11 @@ Proof.
   destruct HI as [I1 _]. destruct (I1 _ _ He) as (_ & Hstor & _).
   split; [exact Hstor|].
   destruct (Stor_origin _ _ Hstor) as (r & qc & q0 & Hp & Hs & Hu & Hn & Hc & Hok & Hst & Hb).
-  exists r, qc, q0. split; [exact Hp|split; [exact Hs|split; [exact Hu|split; [exact Hst|split; [exact Hb|]]]]].
-  destruct (must_not_store qc r) eqn:Em; [|reflexivity].
-  rewrite (C06_storability_sound qc r Hu Hn Hok Em) in Hc. discriminate.
+  destruct (sent_for_same _ _ Hs) as [Ecc Eund].
+  assert (Hu0 : plain_get q0 = true) by (change (is_request_method_understood q0 = true); rewrite Eund; exact Hu).
+  exists r, q0. split; [exact Hp|split; [exact Hu0|split; [exact Hst|split; [exact Hb|]]]].
+  destruct (must_not_store q0 r) eqn:Em; [|reflexivity].
+  rewrite <- Ecc in Hc. rewrite (C06_storability_sound q0 r Hu0 Hn Hok Em) in Hc. discriminate.
 Qed.
 Print Assumptions C06_history_stored.
 
